@@ -2,9 +2,10 @@
 C20 / C12 (self-intersection)  `find_self_intersection_point` and its recursion `find_intersection_point_in_loop`
 (src/bezier/intersection/self_intersection.rs, generated on every run).
 
-* `in_loop_cases`: whatever the clipper is, an answer of the recursion is (a) the out-of-fuel marker, (b) the `unimplemented!`
-  marker - and then some dyadic subsection of the start section splits into TWO loops at its middle -, or (c) the answer the last
-  arm computes for a dyadic subsection neither half of which is a loop.
+* `in_loop_cases`: whatever the clipper is, an answer of the recursion is (a) the out-of-fuel marker or (b) the answer the last arm
+  computes for a dyadic subsection whose halves are both loops or both not.  Before repair F25 (f1b829b) there was a third case, the
+  `unimplemented!` of the (Loop, Loop) arm, reached exactly when some dyadic subsection splits into two loops at its middle: that
+  theorem located the only route to the panic, a directed search then found inputs taking it (nearly cusped loops).
 * `terminal_some_spec`: an answer of the last arm is the image under the two halves' `t_for_t` of a pair the clipper returned (or of
   (0, 1) when the clipper returned nothing and the two far ends are near each other).
 * `self_intersection_ordered`: hence, when the clipper's parameters lie in 0..1, the answer `(t1, t2)` of
@@ -53,37 +54,62 @@ def terminal (clip_ : SectionT K → SectionT K → K → List (T2 K K)) (w1 w2 
     Option.map (fun p => T2.mk (section_t_for_t left p.t0) (section_t_for_t right p.t1))
       (List.find? (fun p => (decide (p.t0 < (1.0 : K))) && (decide (p.t1 > (0.0 : K)))) intersections)
 
-/-- one step of the generated body, by the categories of the two halves -/
+/-- one step of the generated body, by the categories of the two halves: the recursion goes into the half that is a loop when exactly
+    one is; otherwise - neither is, or (since repair F25, where the code had `unimplemented!`) both are - the last arm answers -/
 theorem body_eq (rec_ : SectionT K → K → Option (T2 K K)) (clip_ : SectionT K → SectionT K → K → List (T2 K K))
     (onLL : Option (T2 K K)) (w1 w2 w3 w4 : V2 K) (d : SectionT K) (acc : K) :
     find_intersection_point_in_loop rec_ clip_ onLL w1 w2 w3 w4 d acc =
-      if catOf w1 w2 w3 w4 (leftOf d) = CurveCategory.Loop then
-        (if catOf w1 w2 w3 w4 (rightOf d) = CurveCategory.Loop then onLL else rec_ (leftOf d) acc)
-      else if catOf w1 w2 w3 w4 (rightOf d) = CurveCategory.Loop then rec_ (rightOf d) acc
+      if catOf w1 w2 w3 w4 (leftOf d) = CurveCategory.Loop ∧ catOf w1 w2 w3 w4 (rightOf d) ≠ CurveCategory.Loop then rec_ (leftOf d) acc
+      else if catOf w1 w2 w3 w4 (rightOf d) = CurveCategory.Loop ∧ catOf w1 w2 w3 w4 (leftOf d) ≠ CurveCategory.Loop then rec_ (rightOf d) acc
       else terminal clip_ w1 w2 w3 w4 d acc := by
+  have hb : ∀ c : CurveCategory, (c != CurveCategory.Loop) = decide (c ≠ CurveCategory.Loop) := by intro c; cases c <;> rfl
   unfold find_intersection_point_in_loop terminal
-  dsimp only
-  change (match (T2.mk (catOf w1 w2 w3 w4 (leftOf d)) (catOf w1 w2 w3 w4 (rightOf d)) : T2 CurveCategory CurveCategory) with
-    | (T2.mk CurveCategory.Loop CurveCategory.Loop) => _ | (T2.mk CurveCategory.Loop _) => _ | (T2.mk _ CurveCategory.Loop) => _ | (T2.mk _ _) => _) = _
-  cases catOf w1 w2 w3 w4 (leftOf d) <;> cases catOf w1 w2 w3 w4 (rightOf d) <;> simp [leftOf, rightOf]
+  simp only [catOf, leftOf, rightOf, hb]
+  split
+  · rename_i rt heq
+    injection heq with h0 h1
+    subst h1
+    by_cases hr : (characterize_cubic_bezier (section_start_point w1 w2 w3 w4 (section_subsection d (0.5 : K) (1.0 : K)))
+        (section_control_points w1 w2 w3 w4 (section_subsection d (0.5 : K) (1.0 : K))).t0
+        (section_control_points w1 w2 w3 w4 (section_subsection d (0.5 : K) (1.0 : K))).t1
+        (section_end_point w1 w2 w3 w4 (section_subsection d (0.5 : K) (1.0 : K)))) = CurveCategory.Loop
+    · simp [h0, hr]
+    · simp [h0, hr]
+  · rename_i hne
+    have hl : (characterize_cubic_bezier (section_start_point w1 w2 w3 w4 (section_subsection d (0.0 : K) (0.5 : K)))
+        (section_control_points w1 w2 w3 w4 (section_subsection d (0.0 : K) (0.5 : K))).t0
+        (section_control_points w1 w2 w3 w4 (section_subsection d (0.0 : K) (0.5 : K))).t1
+        (section_end_point w1 w2 w3 w4 (section_subsection d (0.0 : K) (0.5 : K)))) ≠ CurveCategory.Loop := by
+      intro h; exact hne _ (by rw [h])
+    split
+    · rename_i lt heq
+      injection heq with h0 h1
+      subst h0
+      simp [hl, h1]
+    · rename_i hne2
+      have hr : (characterize_cubic_bezier (section_start_point w1 w2 w3 w4 (section_subsection d (0.5 : K) (1.0 : K)))
+          (section_control_points w1 w2 w3 w4 (section_subsection d (0.5 : K) (1.0 : K))).t0
+          (section_control_points w1 w2 w3 w4 (section_subsection d (0.5 : K) (1.0 : K))).t1
+          (section_end_point w1 w2 w3 w4 (section_subsection d (0.5 : K) (1.0 : K)))) ≠ CurveCategory.Loop := by
+        intro h; exact hne2 _ (by rw [h])
+      simp [hl, hr]
 
-/-- THE RECURSION, CASE BY CASE (any clipper, any fuel) -/
+/-- THE RECURSION, CASE BY CASE (any clipper, any fuel): an answer is the out-of-fuel marker or the last arm's answer on a dyadic
+    subsection whose halves are both loops or both not.  There is no third case: the function is total (no panic), which is C20's
+    claim for it. -/
 theorem in_loop_cases (clip_ : SectionT K → SectionT K → K → List (T2 K K)) (onLL onFuel : Option (T2 K K)) (w1 w2 w3 w4 : V2 K)
     (acc : K) (n : Nat) (s : SectionT K) :
     findInLoop clip_ onLL onFuel w1 w2 w3 w4 n s acc = onFuel ∨
-    ∃ d, Desc s d ∧
-      ((findInLoop clip_ onLL onFuel w1 w2 w3 w4 n s acc = onLL ∧
-          catOf w1 w2 w3 w4 (leftOf d) = CurveCategory.Loop ∧ catOf w1 w2 w3 w4 (rightOf d) = CurveCategory.Loop) ∨
-       (findInLoop clip_ onLL onFuel w1 w2 w3 w4 n s acc = terminal clip_ w1 w2 w3 w4 d acc ∧
-          catOf w1 w2 w3 w4 (leftOf d) ≠ CurveCategory.Loop ∧ catOf w1 w2 w3 w4 (rightOf d) ≠ CurveCategory.Loop)) := by
+    ∃ d, Desc s d ∧ findInLoop clip_ onLL onFuel w1 w2 w3 w4 n s acc = terminal clip_ w1 w2 w3 w4 d acc ∧
+      (catOf w1 w2 w3 w4 (leftOf d) = CurveCategory.Loop ↔ catOf w1 w2 w3 w4 (rightOf d) = CurveCategory.Loop) := by
   induction n generalizing s with
   | zero => left; rfl
   | succ n ih =>
     rw [findInLoop, body_eq]
     by_cases hl : catOf w1 w2 w3 w4 (leftOf s) = CurveCategory.Loop
     · by_cases hr : catOf w1 w2 w3 w4 (rightOf s) = CurveCategory.Loop
-      · right; exact ⟨s, Desc.refl, Or.inl ⟨by simp [hl, hr], hl, hr⟩⟩
-      · simp only [hl, hr, if_true, if_false]
+      · right; exact ⟨s, Desc.refl, by simp [hl, hr], by simp [hl, hr]⟩
+      · simp only [hl, hr, ne_eq, not_false_eq_true, and_self, if_true]
         rcases ih (leftOf s) with h | ⟨d, hd, h⟩
         · exact Or.inl h
         · refine Or.inr ⟨d, ?_, h⟩
@@ -93,7 +119,7 @@ theorem in_loop_cases (clip_ : SectionT K → SectionT K → K → List (T2 K K)
           | left _ ih' => exact Desc.left ih'
           | right _ ih' => exact Desc.right ih'
     · by_cases hr : catOf w1 w2 w3 w4 (rightOf s) = CurveCategory.Loop
-      · simp only [hl, hr, if_true, if_false]
+      · simp only [hl, hr, ne_eq, not_false_eq_true, and_self, if_true, false_and, if_false, not_true_eq_false, and_false]
         rcases ih (rightOf s) with h | ⟨d, hd, h⟩
         · exact Or.inl h
         · refine Or.inr ⟨d, ?_, h⟩
@@ -102,7 +128,7 @@ theorem in_loop_cases (clip_ : SectionT K → SectionT K → K → List (T2 K K)
           | refl => exact Desc.right Desc.refl
           | left _ ih' => exact Desc.left ih'
           | right _ ih' => exact Desc.right ih'
-      · right; exact ⟨s, Desc.refl, Or.inr ⟨by simp [hl, hr], hl, hr⟩⟩
+      · right; exact ⟨s, Desc.refl, by simp [hl, hr], by simp [hl, hr]⟩
 
 /-- AN ANSWER OF THE LAST ARM comes from the clipper (or is the pair of far ends) -/
 theorem terminal_some_spec (clip_ : SectionT K → SectionT K → K → List (T2 K K)) (w1 w2 w3 w4 : V2 K) (d : SectionT K) (acc : K)
@@ -178,20 +204,19 @@ theorem self_intersection_ordered (clip_ : SectionT K → SectionT K → K → L
     (w1 w2 w3 w4 : V2 K) (acc : K)
     (hclip : ∀ l r, ∀ p ∈ clip_ l r acc, 0 ≤ p.t0 ∧ p.t0 ≤ 1 ∧ 0 ≤ p.t1 ∧ p.t1 ≤ 1)
     (r : T2 K K) (h : findSelfIntersection clip_ onLL onFuel fuel w1 w2 w3 w4 acc = some r)
-    (hLL : onLL ≠ some r) (hF : onFuel ≠ some r) :
+    (hF : onFuel ≠ some r) :
     ∃ d, Desc (section_new (0.0 : K) (1.0 : K)) d ∧
-      catOf w1 w2 w3 w4 (leftOf d) ≠ CurveCategory.Loop ∧ catOf w1 w2 w3 w4 (rightOf d) ≠ CurveCategory.Loop ∧
+      (catOf w1 w2 w3 w4 (leftOf d) = CurveCategory.Loop ↔ catOf w1 w2 w3 w4 (rightOf d) = CurveCategory.Loop) ∧
       d.t_c ≤ r.t0 ∧ r.t0 ≤ d.t_c + d.t_m / 2 ∧ d.t_c + d.t_m / 2 ≤ r.t1 ∧ r.t1 ≤ d.t_c + d.t_m ∧
       0 ≤ r.t0 ∧ r.t0 ≤ r.t1 ∧ r.t1 ≤ 1 := by
   unfold findSelfIntersection find_self_intersection_point at h
   dsimp only at h
   split at h
-  · rcases in_loop_cases clip_ onLL onFuel w1 w2 w3 w4 acc fuel (section_new (0.0 : K) (1.0 : K)) with hf | ⟨d, hd, ⟨hll, _, _⟩ | ⟨ht, hl, hr⟩⟩
+  · rcases in_loop_cases clip_ onLL onFuel w1 w2 w3 w4 acc fuel (section_new (0.0 : K) (1.0 : K)) with hf | ⟨d, hd, ht, hiff⟩
     · exact absurd (hf.symm.trans h) hF
-    · exact absurd (hll.symm.trans h) hLL
     · obtain ⟨a, b, c⟩ := desc_range hd
       obtain ⟨r1, r2, r3, r4⟩ := terminal_range clip_ w1 w2 w3 w4 d acc b (hclip _ _) r (ht.symm.trans h)
-      refine ⟨d, hd, hl, hr, r1, r2, r3, r4, by linarith, by linarith, by linarith⟩
+      refine ⟨d, hd, hiff, r1, r2, r3, r4, by linarith, by linarith, by linarith⟩
   · exact absurd h (by simp)
 
 local instance : FSqrt ℚ := ⟨fun x => x⟩
@@ -206,16 +231,15 @@ theorem self_intersection_close (Close : V2 K → V2 K → Prop)
     (hclip : ∀ l r, ∀ p ∈ clip_ l r acc, Close (section_point_at_pos w1 w2 w3 w4 l p.t0) (section_point_at_pos w1 w2 w3 w4 r p.t1))
     (hnear : ∀ a b : V2 K, is_near_to a b acc = true → Close a b)
     (r : T2 K K) (h : findSelfIntersection clip_ onLL onFuel fuel w1 w2 w3 w4 acc = some r)
-    (hLL : onLL ≠ some r) (hF : onFuel ≠ some r) :
+    (hF : onFuel ≠ some r) :
     Close (curve_point_at_pos w1 w2 w3 w4 r.t0) (curve_point_at_pos w1 w2 w3 w4 r.t1) := by
   have e0 : (0.0 : K) = 0 := by norm_num
   have e1 : (1.0 : K) = 1 := by norm_num
   unfold findSelfIntersection find_self_intersection_point at h
   dsimp only at h
   split at h
-  · rcases in_loop_cases clip_ onLL onFuel w1 w2 w3 w4 acc fuel (section_new (0.0 : K) (1.0 : K)) with hf | ⟨d, hd, ⟨hll, _, _⟩ | ⟨ht, hl, hr⟩⟩
+  · rcases in_loop_cases clip_ onLL onFuel w1 w2 w3 w4 acc fuel (section_new (0.0 : K) (1.0 : K)) with hf | ⟨d, hd, ht, _⟩
     · exact absurd (hf.symm.trans h) hF
-    · exact absurd (hll.symm.trans h) hLL
     · rcases terminal_some_spec clip_ w1 w2 w3 w4 d acc r (ht.symm.trans h) with ⟨_, hn, hr'⟩ | ⟨p, hp, hr'⟩
       · subst hr'
         have := hnear _ _ hn
